@@ -8,6 +8,8 @@
  *       net_async.c; they are modelled as reference counted records with exactly the fields that
  *       net_async.c reads through getters.  Getters/setters/ref/free have the semantics of the
  *       KSI_IMPLEMENT_GETTER/SETTER/REF macros (internal.h:138-168).  KSI_Integer has no small-integer pool.
+ *       All model objects are allocated with KSI_new / KSI_malloc, so they take part in C19's allocation-failure
+ *       injection (VERIF_FAULT_ALLOC) and report KSI_OUT_OF_MEMORY like the real constructors.
  *  (M2) PDU layer stubs: <Req>_encloseWithHeader (ownership as types.c:1553-1629: consumes request
  *       reference and header on success only), <Pdu>_serialize (fresh buffer), <Pdu>_parse, <Pdu>_verify
  *       (HMAC), <Resp>_verifyWithRequest: each may fail with a symbolic non-zero status.
@@ -64,7 +66,7 @@ static unsigned c13_live_integers;   /* ghost: allocation balance of the model o
 int KSI_Integer_new(KSI_CTX *ctx, KSI_uint64_t value, KSI_Integer **o) {
 	(void)ctx;
 	if (o == NULL) return KSI_INVALID_ARGUMENT;
-	KSI_Integer *t = (KSI_Integer *)malloc(sizeof(KSI_Integer));
+	KSI_Integer *t = KSI_new(KSI_Integer);
 	if (t == NULL) return KSI_OUT_OF_MEMORY;
 	t->ref = 1; t->value = value; *o = t;
 	c13_live_integers++;
@@ -76,7 +78,7 @@ KSI_uint64_t KSI_Integer_getUInt64(const KSI_Integer *o) { return o != NULL ? o-
 
 int KSI_Utf8String_new(KSI_CTX *ctx, const char *str, size_t len, KSI_Utf8String **o) {
 	if (ctx == NULL || str == NULL || o == NULL) return KSI_INVALID_ARGUMENT;
-	KSI_Utf8String *t = (KSI_Utf8String *)malloc(sizeof(KSI_Utf8String));
+	KSI_Utf8String *t = KSI_new(KSI_Utf8String);
 	if (t == NULL) return KSI_OUT_OF_MEMORY;
 	(void)len;
 	t->ctx = ctx; t->ref = 1; t->value = (char *)str; *o = t;   /* content is never the subject: not copied */
@@ -93,7 +95,7 @@ int KSI_OctetString_extract(const KSI_OctetString *o, const unsigned char **data
 }
 
 int KSI_Config_new(KSI_CTX *ctx, KSI_Config **t) {
-	KSI_Config *c = (KSI_Config *)malloc(sizeof(KSI_Config));
+	KSI_Config *c = KSI_new(KSI_Config);
 	if (c == NULL) return KSI_OUT_OF_MEMORY;
 	c->ref = 1; c->ctx = ctx; c->c13_tag = 0; *t = c; return KSI_OK;
 }
@@ -101,7 +103,7 @@ void KSI_Config_free(KSI_Config *t) { if (t != NULL && --t->ref == 0) free(t); }
 KSI_Config *KSI_Config_ref(KSI_Config *o) { if (o != NULL) o->ref++; return o; }
 
 int KSI_Header_new(KSI_CTX *ctx, KSI_Header **t) {
-	KSI_Header *h = (KSI_Header *)malloc(sizeof(KSI_Header));
+	KSI_Header *h = KSI_new(KSI_Header);
 	if (h == NULL) return KSI_OUT_OF_MEMORY;
 	h->ctx = ctx; h->instanceId = NULL; h->messageId = NULL; h->loginId = NULL; *t = h; return KSI_OK;
 }
@@ -124,7 +126,11 @@ static int c13_stub_status(int fail, int code) {
 			&& code != KSI_NETWORK_RECIEVE_TIMEOUT);
 	return code;
 }
+#ifdef C13_STUBS_NEVER_FAIL      /* C19: the only failures are failed allocations */
+#define C13_ND_STATUS(tag) KSI_OK
+#else
 #define C13_ND_STATUS(tag) c13_stub_status(ND_BOOL(tag##_fails), ND(int, tag##_code))
+#endif
 
 #ifdef C13_VERIFY_OK
 #define C13_VERIFY_STATUS KSI_OK
@@ -141,7 +147,7 @@ struct RESP##_st { size_t ref; KSI_CTX *ctx; KSI_Integer *requestId; KSI_Integer
 struct PDU##_st { KSI_CTX *ctx; KSI_Header *header; REQ *request; RESP *response; KSI_Config *confResponse;            \
 	KSI_ErrorPdu *error; int macFails; int macCode; };                                                                  \
 int REQ##_new(KSI_CTX *ctx, REQ **t) {                                                                                  \
-	REQ *r = (REQ *)malloc(sizeof(REQ));                                                                                \
+	REQ *r = KSI_new(REQ);                                                                                \
 	if (r == NULL) return KSI_OUT_OF_MEMORY;                                                                            \
 	r->ref = 1; r->ctx = ctx; r->requestId = NULL; r->HASREQ_FIELD = NULL; r->config = NULL; *t = r; return KSI_OK;     \
 }                                                                                                                       \
@@ -164,7 +170,7 @@ int REQ##_getConfig(const REQ *o, KSI_Config **v) { if (o == NULL || v == NULL) 
 int REQ##_setConfig(REQ *o, KSI_Config *v) { if (o == NULL) return KSI_INVALID_ARGUMENT; o->config = v; return KSI_OK; } \
 int REQ##_##HASREQ_GETTER(const REQ *o, HASREQ_T **v) { if (o == NULL || v == NULL) return KSI_INVALID_ARGUMENT; *v = o->HASREQ_FIELD; return KSI_OK; } \
 int RESP##_new(KSI_CTX *ctx, RESP **t) {                                                                                \
-	RESP *r = (RESP *)malloc(sizeof(RESP));                                                                             \
+	RESP *r = KSI_new(RESP);                                                                             \
 	if (r == NULL) return KSI_OUT_OF_MEMORY;                                                                            \
 	r->ref = 1; r->ctx = ctx; r->requestId = NULL; r->status = NULL; r->errorMsg = NULL; *t = r; return KSI_OK;         \
 }                                                                                                                       \
@@ -219,8 +225,8 @@ int REQ##_encloseWithHeader(REQ *req, KSI_Header *hdr, const char *key, PDU **pd
 	if (req == NULL || hdr == NULL || key == NULL || pdu == NULL) return KSI_INVALID_ARGUMENT;                          \
 	int res = C13_ND_STATUS(enclose);                                                                                   \
 	if (res != KSI_OK) return res;                                                                                      \
-	PDU *p = (PDU *)malloc(sizeof(PDU));                                                                                \
-	__CPROVER_assume(p != NULL);                                                                                        \
+	PDU *p = KSI_new(PDU);                                                                                \
+	if (p == NULL) return KSI_OUT_OF_MEMORY;                                                                            \
 	p->ctx = req->ctx; p->header = hdr; p->request = req; p->response = NULL; p->confResponse = NULL; p->error = NULL;  \
 	p->macFails = 0; p->macCode = 0;                                                                                    \
 	*pdu = p; return KSI_OK;                                                                                            \
@@ -230,7 +236,7 @@ int PDU##_serialize(const PDU *pdu, unsigned char **raw, size_t *len) {         
 	int res = C13_ND_STATUS(serialize);                                                                                 \
 	if (res != KSI_OK) return res;                                                                                      \
 	unsigned char *b = (unsigned char *)KSI_malloc(4);                                                                  \
-	__CPROVER_assume(b != NULL);                                                                                        \
+	if (b == NULL) return KSI_OUT_OF_MEMORY;                                                                            \
 	b[0] = 0; b[1] = 0; b[2] = 0; b[3] = 0;                                                                             \
 	*raw = b; *len = 4; return KSI_OK;                                                                                  \
 }
